@@ -92,7 +92,7 @@ def run(pid, tier, seed, update_ledger=False):
     prop = importlib.import_module('props.' + pid)
     known = load_json(KNOWN, {'findings': []})
     ledger = load_json(LEDGER, {})
-    timeout_ms = 20000 if tier == "quick" else 90000
+    timeout_ms = 30000 if tier == "quick" else 90000
     violations = []       # (name, replay path, found_input)
     known_hits = []
     undecided = []
@@ -115,8 +115,19 @@ def run(pid, tier, seed, update_ledger=False):
     failed = []
     timed_out = []
     backends = {}
+    unanalysable = []
     for fr in results:
         if fr.error:
+            led_names = sorted(n for n in ledger.get(pid, {}).get(fr.qual, {}) if '/cover' not in n)
+            if fr.error_kind == 'unsupported' and led_names:
+                # every obligation of this function was discharged on the unchanged tree (ledger); the function as it is now
+                # uses a construct outside the verified subset, so none of them can be discharged any more: reported as a
+                # violation of those obligations (DESIGN 10.7), with the engine's reason and, if the replay search finds one,
+                # a concrete failing input
+                unanalysable.append((fr, led_names))
+                per_func.append(dict(function=fr.qual, status='unanalysable', error=fr.error.strip().split('\n')[-1],
+                                     obligations_proved_on_the_unchanged_tree=len(led_names)))
+                continue
             (undecided if fr.error_kind == 'unsupported' else errors).append(
                 '%s: %s' % (fr.qual, fr.error.strip().split('\n')[-1]))
             if fr.error_kind != 'unsupported':
@@ -130,6 +141,8 @@ def run(pid, tier, seed, update_ledger=False):
         nd = 0
         for i, o in enumerate(fr.obligations):
             solver_s += o['secs']
+            if any(__import__('re').search(rx, o['name']) for rx in getattr(prop, 'IGNORE_OBLIGATIONS', ())):
+                continue        # a clause of a shared contract that belongs to another property (decided by that property's check)
             if o['kind'] == 'cover':
                 if o['status'] == 'vacuous':
                     errors.append('%s: assumptions are contradictory (cover proved False)' % o['name'])
@@ -156,10 +169,18 @@ def run(pid, tier, seed, update_ledger=False):
         per_func.append(dict(function=fr.qual, source_sha=fr.source_hash, obligations=nf, discharged=nd,
                              callee_contracts_used=fr.used_contracts, ledger_names_missing=missing))
     # obligations generated by a property-specific generator (e.g. state-reset / syntactic frame obligations of C11)
-    if hasattr(prop, 'custom_proof'):
+    if hasattr(prop, 'custom_proof') or getattr(prop, 'HIDDEN_STATE_MODULES', None):
         t1 = time.time()
         try:
-            customs = prop.custom_proof(tier)
+            customs = prop.custom_proof(tier) if hasattr(prop, 'custom_proof') else []
+            if getattr(prop, 'HIDDEN_STATE_MODULES', None):
+                # the functions the property speaks about must be functions of their arguments: no memo tables / registries
+                # at module level, no mutable default argument that is written (syntactic, from the real AST)
+                from . import frontend as _fe, statecheck as _sc
+                fe_ = _fe.Frontend(os.environ.get('HEPH_REPO', '/repo'))
+                for spec_ in prop.HIDDEN_STATE_MODULES:
+                    mod_, allowed_ = (spec_, ()) if isinstance(spec_, str) else spec_
+                    customs = customs + _sc.hidden_state_census(fe_, mod_, allowed_)
         except Exception:
             customs = []
             errors.append('custom obligation generator crashed: ' + traceback.format_exc().strip().split('\n')[-1])
@@ -209,6 +230,25 @@ def run(pid, tier, seed, update_ledger=False):
                        if name in ledger.get(pid, {}).get(fr.qual, {}) else 'obligation not in the ledger')
         path = write_replay(pid, payload)
         violations.append((name, path, replay is not None))
+    for fr, led_names in unanalysable:
+        name = '%s/no-longer-verifiable[%d obligations proved on the unchanged tree]' % (fr.qual, len(led_names))
+        replay = None
+        try:
+            replay = prop.replay_search(led_names[0], fr.qual, seed, tier) if hasattr(prop, 'replay_search') else None
+        except Exception:
+            errors.append('replay search for %s crashed: %s' % (name, traceback.format_exc().strip().split('\n')[-1]))
+        k = match_known(known, pid, name, replay)
+        if k is not None:
+            known_hits.append((k, name))
+            continue
+        n_obl += len(led_names)
+        payload = dict(property=pid, obligation=name, function=fr.qual, obligations=led_names,
+                       solver=dict(backend='pyvc VC generator', result='no verification condition',
+                                   reason=fr.error.strip().split('\n')[-1]),
+                       failing_input=replay,
+                       note='the function was verified on the unchanged tree; as it is now it uses a construct outside the '
+                            'verified Python subset, so its contract can no longer be discharged')
+        violations.append((name, write_replay(pid, payload), replay is not None))
     # obligations the solver could not decide in time: a violation only if a concrete failing input is found on the
     # real code (replay search); otherwise undecided (exit 2)
     seen_to = set()
